@@ -31,6 +31,11 @@ CLAIMED = {
   "The label index double-check protocol (RLock read, Lock re-read, append) is model-checked for 3 goroutines x 2 keys (injective, inverse map, append-only, own index, termination). TLC -simulate generates call/return interleavings (program, evaluated or not, 2-8 goroutines, 40 calls over 16 methods); each is executed in a child built with -race on one shared value or one context per goroutine; the history (every return digest, sequential baseline from a fresh context, answers recomputed afterwards, label-index pairs) is validated by TLC: every return equals the sequential answer, the value is unchanged, the label index is one injective map. A race-detector report, panic or hang of the child is a violation.",
   "trusted: TLC, Go race detector, digests of method results; goroutine interleavings inside overlapping calls are sampled, not enumerated; canaries (wrong answer, changed value) must be rejected",
   "DESIGN.md §3 C19"),
+ "C17": ("model_checking",
+  "TLA+ spec Tidy.tla defines what a tidy result is (TidyOK over the pruned requirement graph, NotLower) and generates universes; results of the real modload.Tidy / CheckTidy on every generated universe are evaluated by TLC (TidyCheck.tla); ModFile.tla generates module-file values and malformed variants for the round trip",
+  "Tidy.tla: universes (tidy registry modules with root/sub packages, versioned dependency lists, a main module with arbitrary imports and stale/missing/unused/inconsistent dependency entries) are TLC-generated (seeded RandomSubset); TLC checks the model's own theorem (the abstract strategy yields a TidyOK result). Each universe is materialised as an in-memory registry and main module; the real Tidy runs, then again on its own output, CheckTidy, and twice with permuted files and random registry latency; TLC evaluates TidyOK (every import of the closure resolves, exactly the needed modules, each at its minimal-version-selection version), NotLower, idempotence, check acceptance and order independence on the recorded results. A panic or a 30 s hang is a violation. ModFile.tla enumerates module files and 9 malformations: well-formed ones must round-trip through Format/Parse, malformed ones must be rejected.",
+  "trusted: TLC, the TidyOK transcription, the materialisation of universes. Not covered: major-version suffixes/default major versions, replace directives, build attributes; when Tidy reports an error only reproducibility under permutation is required (whether an error is mandated depends on resolution details outside the model). Canary (corrupted result) must be rejected.",
+  "DESIGN.md §3 C17"),
 }
 
 NOT_YET = "check not built yet in this round (see DESIGN.md §8 for the order of construction)"
